@@ -28,7 +28,7 @@ def validate(v, trace, name):
         for rej in rejects:
             e = evs[rej[0] - 1]
             sig = {"kind": rej[1], "word": e.get("word"), "form": e.get("form")}
-            if len(e.get("word") or "") == 1 and e.get("tpl") in (12, 13):
+            if len(e.get("word") or "") == 1 and e.get("before_full_stop"):
                 sig = {"kind": rej[1], "one_letter_word_before_a_full_stop": True}
             if e.get("dictionary"):
                 # merged-dictionary job: is the word one the curated part lists for another dialect only?
